@@ -308,7 +308,7 @@ class GroupedRecord(Record):
         new_records = []
         for record in self.records:
             new_records.append(
-                record.__class__(*map(kwds.pop, record.__slots__, (getattr(self, k) for k in record.__slots__)))
+                record.__class__(*map(kwds.pop, record.__slots__, (getattr(record, k) for k in record.__slots__)))
             )
         if kwds:
             raise ValueError("Got unexpected field names: {kwds!r}".format(kwds=list(kwds)))
